@@ -76,42 +76,13 @@ def classify_c01(step, detail, root):
             return isinstance(ast.parse('(\n' + c + '\n)').body[0].value, cls)
         except SyntaxError:
             return False
-    if step['ptype'] == 'BoolOp' and step['op'] in slice_ops and any(is_a(c, ast.Lambda) for c in codes):
-        return 'lambda-into-boolop-values-slice-path-unparenthesized'
-    if step['ptype'] in ('Call', 'ClassDef') and step['field'] in ('args', 'bases') and step['op'] in slice_ops + ('put', 'replace', 'assign'):
-        try:
-            par = edits_resolve(root.a, step['path'][:-1])
-            kws = [(k.lineno, k.col_offset) for k in par.keywords if k.arg is not None]
-            pos = [(a.lineno, a.col_offset) for a in getattr(par, step['field']) if not isinstance(a, ast.Starred)]
-            if kws and pos and max(pos) > min(kws):
-                return 'positional-after-keyword-accepted'
-        except Exception:
-            pass
-    if any(c.startswith('*') and not c.startswith('**') for c in codes) and step['kind'] not in ('pattern', 'type_param', 'arg'):
-        return f'starred-accepted-into:{step["ptype"]}.{step["field"]}'
-    if step['kind'] == 'stmt' and re_search(r'\\\n[ \t]*;', before_src_of(step)):
-        return 'statement-cut-before-semicolon-on-continuation-line'
-    if step.get('before_dangling_continuation') and step['kind'] == 'stmt':
-        return 'statement-ending-in-dangling-line-continuation'
-    if 'Delete' in (step.get('anc') or ()) and any('*' in c for c in codes):
-        return 'starred-accepted-into:Delete.targets'
-    if step['field'] == 'orelse' and step['ttype'] == 'If':
-        import re
-        if len(set(''.join(re.findall(r'^[ \t]+(?=\S)', root.src, re.M)))) > 1:
-            return 'elif-expansion-uses-tree-indent-not-block-indent'
-    try:
-        ast.parse(root.src)
-    except SyntaxError as e:
-        if 'illegal target for annotation' in str(e) and re_search(r'^\s*\(+\s*\w+\s*\)+\s*[.\[]', root.src):
-            return 'annassign-target-base-left-as-parenthesized-name'
-    except Exception:
-        pass
-    if (step['ptype'] in ('With', 'AsyncWith') and step['field'] == 'items') or step.get('gptype') in ('With', 'AsyncWith'):
+    if (step['ptype'] in ('With', 'AsyncWith') and step['field'] == 'items') or step.get('gptype') in ('With', 'AsyncWith') or 'With' in (step.get('anc') or ()) or 'AsyncWith' in (step.get('anc') or ()):
         try:
             ref = ast.parse(root.src)
             live_items = [len(n.items) for n in ast.walk(root.a) if isinstance(n, (ast.With, ast.AsyncWith))]
             ref_items = [len(n.items) for n in ast.walk(ref) if isinstance(n, (ast.With, ast.AsyncWith))]
-            if live_items != ref_items:
+            sole_tuple = any(isinstance(n, (ast.With, ast.AsyncWith)) and len(n.items) == 1 and isinstance(n.items[0].context_expr, ast.Tuple) and n.items[0].optional_vars is None for n in ast.walk(root.a))
+            if live_items != ref_items or sole_tuple:
                 return 'with-sole-parenthesized-tuple-item-reparsed-as-items'
         except SyntaxError:
             pass
@@ -124,6 +95,38 @@ def classify_c01(step, detail, root):
                 return 'non-target-expression-accepted-into-store-slot'
         except SyntaxError:
             pass
+    if step['ptype'] == 'BoolOp' and step['op'] in slice_ops and any(is_a(c, ast.Lambda) for c in codes):
+        return 'lambda-into-boolop-values-slice-path-unparenthesized'
+    if step['ptype'] in ('Call', 'ClassDef') and step['field'] in ('args', 'bases') and step['op'] in slice_ops + ('put', 'replace', 'assign'):
+        try:
+            par = edits_resolve(root.a, step['path'][:-1])
+            kws = [(k.lineno, k.col_offset) for k in par.keywords if k.arg is not None]
+            pos = [(a.lineno, a.col_offset) for a in getattr(par, step['field']) if not isinstance(a, ast.Starred)]
+            if kws and pos and max(pos) > min(kws):
+                return 'positional-after-keyword-accepted'
+        except Exception:
+            pass
+    if ('Delete' in (step.get('anc') or ()) or step['ptype'] == 'Delete') and any('*' in c for c in codes):
+        return 'starred-accepted-into:Delete.targets'
+    if any(c.startswith('*') and not c.startswith('**') for c in codes) and step['kind'] not in ('pattern', 'type_param', 'arg'):
+        return f'starred-accepted-into:{step["ptype"]}.{step["field"]}'
+    if step['kind'] == 'stmt' and re_search(r';[ \t]*\\\n', before_src_of(step)) and step['op'] in ('remove', 'delitem', 'put_none', 'put_slice_none', 'view_remove', 'cut', 'get_cut', 'get_slice_cut', 'view_cut'):
+        return 'one-line-block-statement-cut-with-continuation-after-semicolon-eats-header'
+    if step['kind'] == 'stmt' and re_search(r'\\\n[ \t]*;', before_src_of(step)):
+        return 'statement-cut-before-semicolon-on-continuation-line'
+    if step.get('before_dangling_continuation') and step['kind'] == 'stmt':
+        return 'statement-ending-in-dangling-line-continuation'
+    if step['field'] == 'orelse' and step['ttype'] == 'If':
+        import re
+        if len(set(''.join(re.findall(r'^[ \t]+(?=\S)', root.src, re.M)))) > 1:
+            return 'elif-expansion-uses-tree-indent-not-block-indent'
+    try:
+        ast.parse(root.src)
+    except SyntaxError as e:
+        if 'illegal target for annotation' in str(e) and re_search(r'^\s*\(+\s*\w+\s*\)+\s*[.\[]', root.src):
+            return 'annassign-target-base-left-as-parenthesized-name'
+    except Exception:
+        pass
     if step['ptype'] == 'Try' and step['field'] == 'handlers':
         try:
             par = edits_resolve(root.a, step['path'][:-1])
